@@ -3,7 +3,7 @@
    the executable cycle check; the fragment/arity check against the regenerated operator
    table; the two refutation witnesses (IR of corpus flows of harness/h_hydro_b_flows). *)
 From Coq Require Import List String NArith Bool Lia ZifyBool ZifyN.
-From HV Require Import HydroB.Model HydroB.GenOps HydroB.PEmit.
+From HV Require Import HydroB.Model HydroB.GenOps HydroB.PEmit HydroB.PArity.
 Import ListNotations.
 Open Scope string_scope.
 Open Scope N_scope.
@@ -106,14 +106,6 @@ Proof. intros []; vm_compute; tauto. Qed.
 (* the first operator of a statement gets `n` inputs, every later one exactly one; each
    must be in the table with `n` inside its hard input range; a port name given to the
    first operator must be one the table lists when it lists any (not dumped: arity only) *)
-Definition op_takes (T : optable) (op : string) (n : N) : bool :=
-  match find_row T op with Some r => in_range (r_inn r) n | None => false end.
-Definition chain_takes (T : optable) (ops : list string) (n : N) : bool :=
-  match ops with
-  | [] => true
-  | op :: rest => op_takes T op n && forallb (fun o => op_takes T o 1) rest
-  end.
-
 Definition frag_arity_ok (T : optable) : bool :=
   forallb (fun s => forallb (fun m => chain_takes T (src_ops s m) 0) all_meta) all_src
   && forallb (fun u => forallb (fun m => chain_takes T (un_ops u m) 1) all_meta) all_un
@@ -156,6 +148,20 @@ Proof.
     specialize (H3 ml (all_meta_complete ml)). rewrite forallb_forall in H3.
     apply H3. apply all_meta_complete.
   - intros k. apply H4. apply all_sink_complete.
+Qed.
+
+(* in-degrees of every emitted graph, for the regenerated table *)
+Theorem emit_in_arities_gen : forall rk f g, emit_flow GenOps.ops_table rk f = Some g ->
+  forall x, In x (g_nodes g) ->
+    op_takes GenOps.ops_table (n_op x) (indeg (g_edges g) (n_id x)) = true.
+Proof.
+  intros rk f g H x Hx.
+  destruct frag_arity_all as [A [B [C D]]].
+  refine (proj2 (emit_in_arities GenOps.ops_table rk A B C D _ _ _ _ f g H x Hx)).
+  - vm_compute; reflexivity.
+  - vm_compute; reflexivity.
+  - intros []; vm_compute; reflexivity.
+  - intros []; vm_compute; reflexivity.
 Qed.
 
 (* ------------------------------------------------------------------ refutation witnesses *)
